@@ -78,6 +78,54 @@ def correspondence(ctx):
                 ctx.bump(f"order{order}")
     ctx.sample({"z_cover_size": int(len(zs)), "first": [complex(z) for z in zs[:5]]})
 
+    # the BaseStepper glue as the translator read it (harness/translate_base.py → Generated/BaseStepperGen.lean) against
+    # the objects the implementation builds: integrator class per order, unsupported orders, copied attributes, dx, and
+    # the contour arguments reaching the integrator (its stored coefficients = those of a directly built ETDRK-p)
+    import translate_base as TB
+    try:
+        TB.translate_base({})
+        facts = dict(TB.LAST_FACTS)
+    except Exception as e:  # noqa: BLE001
+        facts = None
+        ctx.mismatch("translate_base could not read exponax/_base_stepper.py", {"error": f"{type(e).__name__}: {e}"[:300]})
+    if facts is not None:
+        import exponax as ex
+        import jax.numpy as jnp
+        for order in range(0, 7):
+            M, r = (16, 1.0) if order % 2 == 0 else (24, 1.5)
+            kw = dict(order=order, num_circle_points=M, circle_radius=r)
+            want_cls = facts["integrator_class"].get(order)
+            try:
+                st = ex.stepper.KuramotoSivashinskyConservative(1, 7.0, 10, 0.13, **kw)
+                got_cls = type(st._integrator).__name__
+            except NotImplementedError:
+                st, got_cls = None, None
+            ctx.count(("base_glue", "class", order))
+            if got_cls != want_cls:
+                ctx.mismatch("BaseStepper order dispatch vs Gen.Base.BaseStepper_init_integrator_class",
+                             {"order": order, "impl": got_cls, "model": want_cls})
+            if st is None:
+                continue
+            vals = {"num_spatial_dims": 1, "domain_extent": 7.0, "num_points": 10, "dt": 0.13, "num_channels": 1}
+            for attr, par in facts["copies"].items():
+                ctx.count(("base_glue", "copy", attr))
+                if getattr(st, attr) != vals[par]:
+                    ctx.mismatch("BaseStepper attribute copy vs Gen.Base.BaseStepper_init_copies", {"attr": attr, "impl": getattr(st, attr), "model": vals[par]})
+            if "dx" in facts["attrs"] and abs(float(st.dx) - 0.7) > 1e-15:
+                ctx.mismatch("BaseStepper.dx vs Gen.Base.BaseStepper_init_attr_dx", {"impl": float(st.dx), "model": 0.7})
+            if order >= 1:
+                dop = ex.spectral.build_derivative_operator(1, 7.0, 10)
+                lin = st._build_linear_operator(dop)
+                direct = getattr(ex.etdrk, want_cls)(0.13, lin, st._build_nonlinear_fun(dop), num_circle_points=M, circle_radius=r)
+                for name in ["_exp_term", "_half_exp_term"] + [f"_coef_{i}" for i in range(1, 7)]:
+                    if hasattr(direct, name):
+                        ctx.count(("base_glue", "contour", order, name))
+                        a_, b_ = np.asarray(getattr(st._integrator, name)), np.asarray(getattr(direct, name))
+                        if a_.shape != b_.shape or not np.array_equal(a_, b_):
+                            ctx.mismatch("stepper's stored ETDRK attribute vs the integrator built with the user's (dt, M, r)",
+                                         {"order": order, "attr": name, "M": M, "r": r})
+        ctx.sample({"base_glue_facts": {k: (v if not isinstance(v, dict) else {str(a): b for a, b in v.items()}) for k, v in facts.items()}})
+
     # stage formulas with a user-defined nonlinear callable N(v) = a v^2 + b v + c
     n = 7
     for order in [0] + ORDERS:
